@@ -68,8 +68,8 @@ def big_case(rng, country):
             "allow_neg": False, "exchanges": ["E0"], "holders": ["H0"], "assets": [a, b]}
 
 
-def gen_cases(tier, rng):
-    n = 150 if tier == "quick" else 16000
+def gen_cases(tier, rng, boost=1):
+    n = (150 if tier == "quick" else 16000) * boost
     cases = []
     for k in range(n):
         country = "ie" if k % 3 == 2 else "us"
@@ -269,11 +269,11 @@ def load_corpus():
 def run(tier, build, replay=None):
     out = core.Outcome("C14", tier)
     proofs = core.check_proofs(build, "C14.v")
+    fallback = not str(build.translator.get("tax_report", "")).startswith("translated")
     if replay:
         jobs = [replay]
-    else:
-        jobs = load_corpus() + gen_cases(tier, core.Rng(core.seed(), 1400))
-    fallback = not str(build.translator.get("tax_report", "")).startswith("translated")
+    else:       # fragment not recognised: the model runs on the accepted tables, so the comparison alone carries the tie -> twice the cases (quick)
+        jobs = load_corpus() + gen_cases(tier, core.Rng(core.seed(), 1400), boost=2 if (fallback and tier == "quick") else 1)
     results = l5.run_workers(jobs)
     valid = [(j, r) for j, r in zip(jobs, results) if "computed" in r]
     invalid = len(jobs) - len(valid)
